@@ -100,3 +100,7 @@ def check(prog: Program, rep):
     rep.rule("C03.R7", "node-weighted input and its subpath constraints reach the model unchanged (expansion scheme, total translators; C11.R3)", floor=14)
     from rules.common import node_mode_plumbing
     node_mode_plumbing(prog, rep, "C03.R7")
+    rep.rule("C03.R8", "the greedy shortcut is accepted only if its paths really contain the constraint edges (coverage test counts path edges; C10.R5)", floor=2)
+    from rules.c10 import max_occurrence_rule
+    from rules.common import RuleProxy
+    max_occurrence_rule(prog, RuleProxy(rep, "C03.R8"), "C10.R5")
